@@ -430,7 +430,7 @@ func c19Collector(r *ev.Run) {
 		runs = 2500
 	}
 	for ri := 0; ri < runs; ri++ {
-		capacity := []uint8{1, 2, 3, 5, 8, 50}[rnd.Intn(6)]
+		capacity := []uint8{1, 2, 3, 5, 8, 50, 254, 255}[rnd.Intn(8)]
 		col := hotkey.NewCollector(capacity)
 		ncnt := 1 + rnd.Intn(4)
 		counters := make([]*hotkey.Counter, ncnt)
@@ -468,6 +468,9 @@ func c19Collector(r *ev.Run) {
 		}
 		steps := 10 + rnd.Intn(40)
 		alpha := 2 + rnd.Intn(30)
+		if capacity > 200 {
+			alpha = 200 + rnd.Intn(400) // more distinct keys than the largest capacity can hold
+		}
 		// reports a reader still holds: HOTKEY walks the slice it was given without any lock, so a report that has been handed
 		// out must never change afterwards (the deterministic form of "a reader preempted in the middle of formatting")
 		type heldReport struct {
@@ -480,9 +483,15 @@ func c19Collector(r *ev.Run) {
 			switch x := rnd.Intn(10); {
 			case x < 5:
 				n := 1 + rnd.Intn(300)
+				if capacity > 200 {
+					n += 2000
+				}
 				ci := rnd.Intn(ncnt)
 				for i := 0; i < n; i++ {
 					k := "key" + strconv.Itoa(rnd.Intn(alpha)%(1+rnd.Intn(alpha)))
+					if capacity > 200 && i%2 == 0 {
+						k = fmt.Sprintf("b%d.key%d", ci, rnd.Intn(alpha)) // every backend has its own hot keys: the merged report overflows
+					}
 					amu.Lock()
 					accessed[k] = true
 					amu.Unlock()
